@@ -63,7 +63,8 @@ fn space_case() -> BoxedStrategy<SpaceCase> {
             for (raw, sep) in &raw_chunks {
                 let RawSentence(items) = raw;
                 let s = assemble_sentence(&RawSentence(items.clone()), &spec, urows, 10);
-                let s: String = s.chars().filter(|&c| rc.info(c).cats & bit == 0).collect();
+                let mut s: String = s.chars().filter(|&c| rc.info(c).cats & bit == 0).collect();
+                crate::gen::dict::exclude_known_astral(&spec, &mut s);
                 if s.is_empty() {
                     continue;
                 }
